@@ -20,6 +20,10 @@ type Item struct {
 	Calls int
 }
 
+// Double / Neg: two different (side-effect free) methods on one receiver: the receiver atom is shared by two wrappers.
+func (s *Sub) Double() int64 { return 2 * s.V }
+func (s *Sub) Neg() int64    { return -s.V }
+
 func (it *Item) Expensive() bool {
 	it.Calls++
 	return it.V > 0
@@ -70,6 +74,7 @@ type Fact struct {
 
 	PanicAt    int64
 	HeavyCalls int
+	ItemsCalls int
 	GetICalls  int
 	Log        []int64
 }
@@ -80,8 +85,11 @@ func (f *Fact) Heavy(a int64) bool {
 	return a > 10
 }
 
-// Items returns the same elements on every call (side-effect free).
-func (f *Fact) Items() []*Item { return f.items }
+// Items returns the same elements on every call (side-effect free); its calls are counted.
+func (f *Fact) Items() []*Item {
+	f.ItemsCalls++
+	return f.items
+}
 
 // ItemCalls reports how often the first element's counted method ran.
 func (f *Fact) ItemCalls() int {
